@@ -77,12 +77,15 @@ struct Case {
     send: SendKind,
     /// re-issue every connect (same and reversed orientation) after the chain is complete
     reconnect: bool,
+    /// both ends send at the same time and the channels have a bitrate (64 ms per 64-byte
+    /// message and channel hop): the two directions must not get in each other's way
+    duplex: bool,
 }
 
 fn case_json(c: &Case) -> Value {
     json!({"k": c.k, "layout": c.layout, "connect_order": c.perm, "orientation_bits": c.orient, "channel_bits": c.chans, "direction": c.dir,
            "send": match c.send { SendKind::Send => json!("send"), SendKind::SendIn(d) => json!({"send_in_ns": d}), SendKind::Inject(t) => json!({"add_message_onto_at_ns": t}) },
-           "reconnect": c.reconnect})
+           "reconnect": c.reconnect, "duplex": c.duplex})
 }
 fn case_from(v: &Value) -> Case {
     let s = &v["send"];
@@ -101,6 +104,7 @@ fn case_from(v: &Value) -> Case {
             SendKind::Inject(s["add_message_onto_at_ns"].as_u64().unwrap())
         },
         reconnect: v["reconnect"].as_bool().unwrap(),
+        duplex: v["duplex"].as_bool().unwrap_or(false),
     }
 }
 
@@ -120,7 +124,7 @@ fn run_inner(c: &Case) -> Result<u64, String> {
     let cluster = c.layout == 2;
     for i in 0..k {
         if owner(i) == i {
-            let is_src = i == src;
+            let is_src = i == src || (c.duplex && i == dst);
             sim.node(
                 format!("m{i}"),
                 Node {
@@ -154,7 +158,7 @@ fn run_inner(c: &Case) -> Result<u64, String> {
     let lat = |e: usize| 1u64 << e; // ms, pairwise distinct sums
     let mk_chan = |e: usize| {
         if c.chans & (1 << e) != 0 {
-            Some(Channel::new(ChannelMetrics::new(0, Duration::from_millis(lat(e)), Duration::ZERO, ChannelDropBehaviour::Drop)))
+            Some(Channel::new(ChannelMetrics::new(if c.duplex { 8000 } else { 0 }, Duration::from_millis(lat(e)), Duration::ZERO, ChannelDropBehaviour::Drop)))
         } else {
             None
         }
@@ -202,6 +206,7 @@ fn run_inner(c: &Case) -> Result<u64, String> {
     }
     // ---- dynamics
     let sender_id = sim.get(&format!("m{}", owner(src)).as_str().into()).unwrap().id().0;
+    let sim_id_of_dst = sim.get(&format!("m{}", owner(dst)).as_str().into()).unwrap().id().0;
     let mut rt = Builder::seeded(1).quiet().cqueue_options(8, Duration::from_millis(3)).build(sim.freeze());
     let t0 = match c.send {
         SendKind::Send => 0,
@@ -216,9 +221,19 @@ fn run_inner(c: &Case) -> Result<u64, String> {
     if let Err(e) = &r {
         return Err(format!("run returned an error: {e:?}"));
     }
-    let total: u64 = (0..edges).filter(|e| c.chans & (1 << e) != 0).map(lat).sum();
+    let per_hop_tx = if c.duplex { 64 } else { 0 };
+    let total: u64 = (0..edges).filter(|e| c.chans & (1 << e) != 0).map(|e| lat(e) + per_hop_tx).sum();
     let exp_t = u128::from(t0) + u128::from(total) * 1_000_000;
-    let recvs: Vec<String> = log.lock().unwrap().clone();
+    let mut recvs: Vec<String> = log.lock().unwrap().clone();
+    if c.duplex {
+        // the message travelling the other way
+        let other_id = sim_id_of_dst;
+        let exp_back = format!("recv:m{}:t={exp_t}:last={}:snd={other_id}:rcv_ok=true", owner(src), all[src]);
+        let Some(pos) = recvs.iter().position(|r| *r == exp_back) else {
+            return Err(format!("chain {all:?} (channels with a bitrate on hops {chan_exp:?}), both ends sending at once: expected '{exp_back}' among {recvs:?}"));
+        };
+        recvs.remove(pos);
+    }
     let exp_snd = if matches!(c.send, SendKind::Inject(_)) { None } else { Some(sender_id) };
     let exp_prefix = format!("recv:m{}:t={exp_t}:last={}:snd=", owner(dst), all[dst]);
     if recvs.len() != 1 {
@@ -258,17 +273,17 @@ impl Property for C08 {
     fn rule(&self, tier: Tier) -> String {
         format!(
             "every chain of k = 2..={} gates x layout {{one module per gate, two chain gates on one module, cluster-element end gates}} x all (k-1)! connect orders x 2^(k-1) orientations x 2^(k-1) channel placements (latencies 1,2,4,8 ms so that the arrival time identifies the hops) \
-             x both directions x {{send, send_in(0.5 s), add_message_onto}} x {{plain, every connect re-issued in both orientations}}; \
+             x both directions x {{send, send_in(0.5 s), add_message_onto}} x {{plain, every connect re-issued in both orientations, duplex: both ends send at the same instant over channels that have a bitrate (the two directions must not get in each other's way)}}; \
              oracle: exactly one handle_message at the far-end owner at send time + sum of latencies with last_gate / sender / receiver header fields; kind() per gate, path_iter from both ends mirror images, path_end / next_gate, channels on the declared hops, third peer rejected; \
              non-trivial = chain with at least 3 gates",
             tier.pick(5, 6)
         )
     }
     fn assumptions(&self) -> Vec<String> {
-        vec!["channels have bitrate 0 (pure latency); busy/queue behaviour is C07's subject".into()]
+        vec!["channels have bitrate 0 (pure latency) except in the duplex variant (8000 bit/s, one message per direction); busy/queue behaviour is C07's subject".into()]
     }
     fn required_features(&self, _tier: Tier) -> Vec<&'static str> {
-        vec!["chain_with_transit_gates", "two_gates_on_one_module", "cluster_end_gates", "reverse_direction", "injected_message", "reconnect_idempotence", "connects_out_of_chain_order", "third_peer_probe"]
+        vec!["chain_with_transit_gates", "two_gates_on_one_module", "cluster_end_gates", "reverse_direction", "injected_message", "reconnect_idempotence", "connects_out_of_chain_order", "third_peer_probe", "both_ends_send_at_once_over_channels_with_bitrate"]
     }
     fn explore(&self, ctx: &mut Ctx) {
         if ctx.is_first_shard() {
@@ -292,11 +307,17 @@ impl Property for C08 {
                         for chans in 0..(1u32 << edges) {
                             for dir in 0..2u8 {
                                 for send in [SendKind::Send, SendKind::SendIn(500_000_000), SendKind::Inject(250_000_000)] {
-                                    for reconnect in [false, true] {
+                                    for (reconnect, duplex) in [(false, false), (true, false), (false, true)] {
+                                        if duplex && (dir != 0 || chans == 0 || matches!(send, SendKind::Inject(_))) {
+                                            continue;
+                                        }
                                         if !ctx.mine() {
                                             continue;
                                         }
-                                        let c = Case { k, layout, perm: perm.clone(), orient, chans, dir, send, reconnect };
+                                        let c = Case { k, layout, perm: perm.clone(), orient, chans, dir, send, reconnect, duplex };
+                                        if duplex {
+                                            ctx.hit("both_ends_send_at_once_over_channels_with_bitrate");
+                                        }
                                         ctx.out.evaluations += 1;
                                         ctx.out.traces += 1;
                                         ctx.out.states += 1;
